@@ -10,16 +10,16 @@ def C(pid, technique, text, note):
 
 EXPL = "Exploration by generated-input search against an explicit oracle; finite sub-spaces that are enumerated completely are listed under exhaustive_subspaces in the evidence. It never proves absence: bounds, class histograms and the measured number of distinct non-trivial cases are reported. "
 
-C("C01", "proptest model-based round trip (observation function over public accessors + byte-level idempotence), shrinking to a replay file",
+C("C01", "proptest model-based round trip (observation function over public accessors + byte-level idempotence), also after every step of a generated history on one living object (setters, adjust_mappings, lookups, clone, inside an index section); shrinking to a replay file",
   EXPL + "Model maps of all three kinds through builder / raw constructor / independent JSON encoder, compared with the model and after ser->decode; ser∘dec∘ser byte-identical.",
   "Trusts the harness models and the third-party debugid parser; exact consecutive duplicates are normalised as the statement allows.")
 C("C02", "proptest differential: documents written by an independent v3 encoder, expected map computed from the abstract document model",
   EXPL + "No decoding on the oracle side: the expectation comes from the model the document was written from.",
   "Trusts the harness encoder (own VLQ writer cross-checked against the vlq crate in C11); token order among equal positions not compared.")
-C("C03", "proptest differential: crate output read back by serde_json::Value plus an independent mappings/rangeMappings reader",
+C("C03", "proptest differential: crate output read back by serde_json::Value plus an independent mappings/rangeMappings reader; stateful histories (vec of ops + interpreter) that serialise the same object again after every mutator / read-only use",
   EXPL + "Every producer (builder, decode, rewrite, flatten, adjust_mappings, round trip), recursively for index sections.",
   "Trusts the harness reader; well-formed maps only.")
-C("C04", "proptest model-based lookups against a linear-scan oracle; operation histories (vec of ops + interpreter) with the ordering invariant after every step",
+C("C04", "proptest model-based lookups against a linear-scan oracle; operation histories (vec of ops + interpreter) with the ordering invariant after every step; iterator-protocol conformance (nth/skip/step_by/count/last/size_hint/mixed walks) of tokens() and the list iterators",
   EXPL + "Queries are derived from every token position (exact, +-1, line ends, neighbouring lines, corners).",
   "Inexact hits accept any token at the greatest position (the statement fixes the first token only for exact hits).")
 C("C05", "fuzzing + proptest: one battery (all entry points, allocation bound, full query battery, serialise->decode, rewrite, flatten) driven by structured fault documents, byte mutations of a corpus, arbitrary bytes; thorough tier adds coverage-guided libFuzzer (ASan) with the same battery in the target",
@@ -31,13 +31,13 @@ C("C06", "proptest fault injection on a well-formed twin (arity, index out of ra
 C("C07", "exhaustive enumeration of small shapes x every range-flag subset + proptest random lines with forced positions (15..18, 31..34, first/last/sparse); independent rangeMappings reader/writer; lookup shift model",
   EXPL + "Decoder side, encoder side, round trip and lookups are each compared with the model.",
   "Documents without empty segments; saturating shifts are crash-freedom only.")
-C("C08", "proptest model-based: reference flattener and section-wise reference lookup over generated indexes (nested, Hermes, url-only, same-line sections), index lookup == flattened lookup",
+C("C08", "proptest model-based: reference flattener and section-wise reference lookup over generated indexes (nested, Hermes, url-only, same-line sections), index lookup == flattened lookup, flatten_and_rewrite == flatten+rewrite",
   EXPL + "Tokens are clipped below the next section's offset by construction (the statement's precondition).",
   "Small coordinates; ties accept any member of the tie set.")
-C("C09", "proptest metamorphic relation: rewrite(options) must preserve what every token resolves to; prefixes derived from the map's own source names; Hermes scopes before/after",
+C("C09", "proptest metamorphic relation: rewrite(options) must preserve what every token resolves to; prefixes derived from the map's own source names; Hermes scopes before/after; lookups at every token position resolve to corresponding tokens before and after",
   EXPL + "All four names/contents combinations and 0..3 prefixes incl. '~'.",
   "The common prefix picked for '~' is not re-derived (only its shape and consistency are checked).")
-C("C10", "exhaustive small grids + proptest random pairs against a brute-force interval-composition reference (all orders of tokens sharing a position)",
+C("C10", "exhaustive small grids + proptest random pairs against a brute-force interval-composition reference (all orders of tokens sharing a position); chains of compositions over a pool of maps (a map used as adjustment, adjusted itself, used again), each step judged on the token lists read just before it",
   EXPL + "Result compared as a multiset with payload identification.",
   "K1 (extra tokens for zero-length stretches) tolerated only by its exact signature.")
 C("C12", "proptest + exhaustive chunkings: differential reader vs slice vs data URL under a harness Read that serves generated chunkings; thorough tier adds a libFuzzer target over (chunk sizes, document)",
@@ -46,25 +46,25 @@ C("C12", "proptest + exhaustive chunkings: differential reader vs slice vs data 
 C("C13", "proptest stateful histories (vec of builder/map operations + interpreter) against an interning model",
   EXPL + "Returned ids, resolved tokens and the serialised raw names/root are checked after every map operation.",
   "Setter preconditions (existing id) are respected by construction.")
-C("C14", "proptest model-based: Metro-style function maps written by the harness, independent Metro reader + linear scan as oracle, answers repeated after a round trip",
+C("C14", "proptest model-based: Metro-style function maps written by the harness, independent Metro reader + linear scan as oracle, answers repeated after a round trip; bytecode offsets inside range mappings",
   EXPL + "Ill-formed function maps (cut-off, 14-digit, foreign character) for single sources must not disturb the others.",
   "Entries sorted and distinct by (line, column).")
-C("C15", "exhaustive small texts x request orders + proptest histories against a reference splitter and UTF-16 slicer",
+C("C15", "exhaustive small texts x request orders + proptest histories against a reference splitter and UTF-16 slicer; iterator-protocol conformance of lines()",
   EXPL + "Any access order, clones of partially indexed views, slices with edge values.",
   "Columns strictly inside a surrogate pair are crash-freedom only.")
-C("C16", "schedule exploration owned by the harness: exhaustive DFS over all interleavings of the yield points for small scenario shapes, proptest (scenario, schedule) pairs for larger ones, free-running stress; reference splitter as oracle",
+C("C16", "schedule exploration owned by the harness: scenario threads are fibers resumed one at a time at the yield points (deterministic), exhaustive DFS over all interleavings for small scenario shapes, proptest (scenario, schedule) pairs for larger ones, structural deadlock detection, free-running stress on real threads; reference splitter as oracle",
   EXPL + "Needs the add-only cfg(sourcemap_verif) yield hook; executions are a deterministic function of (text, calls, schedule) (self-checked).",
-  "Sequentially consistent scheduler: hardware reordering is only probed by the stress run.")
+  "Interleavings at the granularity of the yield points (sequentially consistent): what two threads do at the same instant inside a critical section or between two Relaxed atomics is only probed by the stress run. Deadlock = executor thread asleep in the kernel without CPU time or context switches over 2 s; any other lack of progress is inconclusive.")
 C("C17", "proptest generated minified programs + maps against an independent reference walk (128-token window, UTF-16 columns)",
   EXPL + "Window-boundary sub for distances around 128.",
   "Identifier classification restricted to an unambiguous pool; K2 (index sections at non-zero offsets) tolerated by its signature.")
-C("C18", "proptest: generated files against a reference scan (slice and chunked reader), data-URL round trip incl. discovery from a comment, detection predicate on all map kinds",
+C("C18", "proptest: generated files against a reference scan (slice, chunked reader and SourceView::sourcemap_reference), data-URL round trip incl. discovery from a comment, detection predicate on all map kinds",
   EXPL,
   "Valid UTF-8 texts with \\n / \\r\\n endings.")
 C("C19", "exhaustive enumeration (57 600 pairs) + proptest random pairs against a reference path resolver",
   EXPL,
   "Ordinary components, both paths of the same kind (the statement's precondition).")
-C("C20", "proptest model bundles with every truncation and field edits + arbitrary bytes against an independent header reader; thorough tier adds a libFuzzer target (ASan)",
+C("C20", "proptest model bundles with every truncation and field edits + arbitrary bytes against an independent header reader; iterator-protocol conformance of iter_modules(); slice and owning entry points compared; thorough tier adds a libFuzzer target (ASan)",
   EXPL,
   "Designated payload range = offset..offset+length-1; Err is accepted for corrupted inputs even when the range is inside the buffer.")
 CHECKS["C11"] = dict(
